@@ -6,6 +6,10 @@
 //!   resize  value sizes that force several map resizes (1 MB chunks in test mode), readers that
 //!           hold a read transaction across `Store::batch()`, reopen
 //!   crash   child processes killed before / after / during `commit`; parent reopens and dumps
+//!   cstore  the chain-level layer `grin_chain::store::{ChainStore, Batch}`: nested typed batches,
+//!           typed getters through the batch / a child / the parent / the plain store on two threads
+//!   frag    fragmented free space (deletes / overwrites of a large share of the data) followed by
+//!           growth with multi-page values: resizes must come in time, no put / commit may fail
 //!   crash-child <dir> <kind> <n>   (internal: the process that gets killed)
 //!
 //! One line per operation: `kv <op> <args> => <what the implementation answered>`; the Lean
@@ -2016,6 +2020,1235 @@ fn mode_crash(work: &str, seed: u64, thorough: bool) {
 	out.flush();
 }
 
+// ---------------------------------------------------------------------------------------------
+// mode cstore: the chain-level store layer chain/src/store.rs - `ChainStore`, its `Batch`
+// (`batch()`, `child()`, `commit()`, drop) and the typed savers / getters on top of store::Store.
+//
+// Random programs of nested ChainStore batches over a pool of REAL objects (headers and blocks of
+// a small fork tree built on a real chain, with mutated header variants; tips of those headers;
+// block sums, spent indices, output positions): every typed saver is followed by the matching
+// typed getter through the same batch, a fresh child reads what its parent wrote, the parent
+// re-reads what a child wrote after the child committed / was dropped; after every write the plain
+// `ChainStore` (outside any batch) is read on this thread and on a second thread - it must answer
+// from the committed state only; after the outermost commit / drop every touched key is read twice
+// from both threads (answers must not change between repeats: caches) and, periodically, the
+// store is reopened and read again.  Every answer goes to the Lean driver (typed functions of
+// Model/ChainStore.lean on the nested-transaction model) and is checked here against a shadow map.
+// ---------------------------------------------------------------------------------------------
+use grin_chain::store::{Batch as CBatch, ChainStore};
+use grin_chain::types::{CommitPos, Tip};
+use grin_core::core::hash::{Hash, Hashed};
+use grin_core::core::{Block, BlockHeader, BlockSums};
+use grin_core::ser::ProtocolVersion;
+use grin_util::secp::pedersen::Commitment;
+use gvharness::chainkit::{KSpec, Kit, TxSpec};
+
+const DBV: ProtocolVersion = ProtocolVersion(3);
+const CS_DBS: [u8; 7] = [b'h', b'b', b'p', b'K', b'k', b'M', b'S'];
+
+#[derive(Clone)]
+enum Obj {
+	Hdr(BlockHeader),
+	Blk(Block),
+	Tip(Tip),
+	Sums(BlockSums),
+	Spent(Vec<CommitPos>),
+	Pos(CommitPos),
+}
+#[derive(Clone)]
+struct ObjRec {
+	name: String,
+	obj: Obj,
+	/// intrinsic key (hash) of headers and blocks, empty otherwise
+	key: Vec<u8>,
+	/// prev_hash of headers, empty otherwise
+	aux: Vec<u8>,
+	bytes: Vec<u8>,
+}
+
+/// typed getters (of `Batch` and, where it exists, of `ChainStore`)
+#[derive(Clone, Debug)]
+enum G {
+	/// head | tail | header-head | header | block | sums | spent | outpos-height
+	Typed(&'static str, Vec<u8>),
+	HeadHeader,
+	Prev(usize),
+	PrevSkip(usize),
+	HeaderSkip(Vec<u8>),
+	BlockExists(Vec<u8>),
+	OutPos(Vec<u8>),
+	PibdHead,
+	BlocksIter,
+	OutposIter,
+}
+
+fn cs_key(kind: &str, key: &[u8]) -> K {
+	match kind {
+		"head" => (0, vec![b'H']),
+		"tail" => (0, vec![b'T']),
+		"header-head" => (0, vec![b'G']),
+		"pibd-head" => (0, vec![b'I']),
+		"header" => (db_id(Some(b'h')), key.to_vec()),
+		"block" => (db_id(Some(b'b')), key.to_vec()),
+		"sums" => (db_id(Some(b'M')), key.to_vec()),
+		"spent" => (db_id(Some(b'S')), key.to_vec()),
+		"outpos-height" => (db_id(Some(b'p')), key.to_vec()),
+		_ => panic!("kind {}", kind),
+	}
+}
+
+fn fmt_ser<T: Writeable>(r: Result<T, Error>) -> String {
+	match r {
+		Ok(v) => match ser::ser_vec(&v, DBV) {
+			Ok(b) => format!("some:{}", showval(&b)),
+			Err(_) => "err".into(),
+		},
+		Err(Error::NotFoundErr(_)) => "none".into(),
+		Err(_) => "err".into(),
+	}
+}
+fn fmt_height(r: Result<BlockHeader, Error>) -> String {
+	match r {
+		Ok(h) => format!("some:h{}", h.height),
+		Err(Error::NotFoundErr(_)) => "none".into(),
+		Err(_) => "err".into(),
+	}
+}
+fn fmt_num(r: Result<u64, Error>) -> String {
+	match r {
+		Ok(n) => format!("some:{}", n),
+		Err(Error::NotFoundErr(_)) => "none".into(),
+		Err(_) => "err".into(),
+	}
+}
+fn g_args(g: &G, pool: &[ObjRec]) -> String {
+	match g {
+		G::Typed(kind, k) => format!("get {} {}", kind, hex(k)),
+		G::HeadHeader => "head-header".into(),
+		G::Prev(i) => format!("prev {}", pool[*i].name),
+		G::PrevSkip(i) => format!("prev-skip {}", pool[*i].name),
+		G::HeaderSkip(k) => format!("header-skip {}", hex(k)),
+		G::BlockExists(k) => format!("block-exists {}", hex(k)),
+		G::OutPos(k) => format!("outpos {}", hex(k)),
+		G::PibdHead => "pibd-head".into(),
+		G::BlocksIter => "blocks-iter".into(),
+		G::OutposIter => "outpos-iter".into(),
+	}
+}
+fn g_kind(g: &G) -> String {
+	match g {
+		G::Typed(kind, _) => format!("get-{}", kind),
+		G::HeadHeader => "head-header".into(),
+		G::Prev(_) => "prev".into(),
+		G::PrevSkip(_) => "prev-skip".into(),
+		G::HeaderSkip(_) => "header-skip".into(),
+		G::BlockExists(_) => "block-exists".into(),
+		G::OutPos(_) => "outpos".into(),
+		G::PibdHead => "pibd-head".into(),
+		G::BlocksIter => "blocks-iter".into(),
+		G::OutposIter => "outpos-iter".into(),
+	}
+}
+fn hdr_of(pool: &[ObjRec], i: usize) -> &BlockHeader {
+	match &pool[i].obj {
+		Obj::Hdr(h) => h,
+		_ => panic!("not a header"),
+	}
+}
+fn g_in_batch(b: &CBatch<'_>, g: &G, pool: &[ObjRec]) -> String {
+	match g {
+		G::Typed(kind, k) => match *kind {
+			"head" => fmt_ser(b.head()),
+			"tail" => fmt_ser(b.tail()),
+			"header-head" => fmt_ser(b.header_head()),
+			"header" => fmt_ser(b.get_block_header(&Hash::from_vec(k))),
+			"block" => fmt_ser(b.get_block(&Hash::from_vec(k))),
+			"sums" => fmt_ser(b.get_block_sums(&Hash::from_vec(k))),
+			"spent" => fmt_ser(b.get_spent_index(&Hash::from_vec(k))),
+			"outpos-height" => match b.get_output_pos_height(&Commitment::from_vec(k.clone())) {
+				Ok(Some(p)) => fmt_ser(Ok(p)),
+				Ok(None) => "none".into(),
+				Err(_) => "err".into(),
+			},
+			_ => "unsupported".into(),
+		},
+		G::HeadHeader => fmt_ser(b.head_header()),
+		G::Prev(i) => fmt_ser(b.get_previous_header(hdr_of(pool, *i))),
+		G::PrevSkip(i) => fmt_height(b.get_previous_header_skip_proof(hdr_of(pool, *i))),
+		G::HeaderSkip(k) => fmt_height(b.get_block_header_skip_proof(&Hash::from_vec(k))),
+		G::BlockExists(k) => fmt_bool(&b.block_exists(&Hash::from_vec(k))),
+		G::OutPos(k) => fmt_num(b.get_output_pos(&Commitment::from_vec(k.clone()))),
+		G::PibdHead => "unsupported".into(),
+		G::BlocksIter => match b.blocks_iter() {
+			Err(_) => "err".into(),
+			Ok(it) => {
+				let mut v = vec![];
+				for x in it {
+					match x {
+						Ok(blk) => v.push(hex(blk.hash().as_ref())),
+						Err(_) => return "err".into(),
+					}
+				}
+				format!("[{}]", v.join(","))
+			}
+		},
+		G::OutposIter => match b.output_pos_iter() {
+			Err(_) => "err".into(),
+			Ok(it) => {
+				let mut v = vec![];
+				for x in it {
+					match x {
+						Ok((k, p)) => v.push((k, ser::ser_vec(&p, DBV).unwrap())),
+						Err(_) => return "err".into(),
+					}
+				}
+				fmt_items(&v)
+			}
+		},
+	}
+}
+fn g_outside(cs: &ChainStore, g: &G, pool: &[ObjRec]) -> Option<String> {
+	Some(match g {
+		G::Typed(kind, k) => match *kind {
+			"head" => fmt_ser(cs.head()),
+			"tail" => fmt_ser(cs.tail()),
+			"header-head" => fmt_ser(cs.header_head()),
+			"header" => fmt_ser(cs.get_block_header(&Hash::from_vec(k))),
+			"block" => fmt_ser(cs.get_block(&Hash::from_vec(k))),
+			"sums" => fmt_ser(cs.get_block_sums(&Hash::from_vec(k))),
+			"outpos-height" => match cs.get_output_pos_height(&Commitment::from_vec(k.clone())) {
+				Ok(Some(p)) => fmt_ser(Ok(p)),
+				Ok(None) => "none".into(),
+				Err(_) => "err".into(),
+			},
+			_ => return None,
+		},
+		G::HeadHeader => fmt_ser(cs.head_header()),
+		G::Prev(i) => fmt_ser(cs.get_previous_header(hdr_of(pool, *i))),
+		G::PrevSkip(i) => fmt_height(cs.get_previous_header_skip_proof(hdr_of(pool, *i))),
+		G::HeaderSkip(k) => fmt_height(cs.get_block_header_skip_proof(&Hash::from_vec(k))),
+		G::BlockExists(k) => fmt_bool(&cs.block_exists(&Hash::from_vec(k))),
+		G::OutPos(k) => fmt_num(cs.get_output_pos(&Commitment::from_vec(k.clone()))),
+		G::PibdHead => fmt_ser(cs.pibd_head()),
+		G::BlocksIter | G::OutposIter => return None,
+	})
+}
+/// the oracle: what getter `g` must answer when raw reads answer `get`
+fn g_expect(get: &dyn Fn(&K) -> Option<Vec<u8>>, items: &dyn Fn(Db) -> Vec<(Vec<u8>, Vec<u8>)>, g: &G, pool: &[ObjRec], gen_tip: &[u8]) -> String {
+	let raw = |k: &K| match get(k) {
+		Some(v) => format!("some:{}", showval(&v)),
+		None => "none".to_string(),
+	};
+	let height = |k: &K| match get(k) {
+		Some(v) if v.len() >= 10 => format!("some:h{}", u64::from_be_bytes(v[2..10].try_into().unwrap())),
+		Some(_) => "err".to_string(),
+		None => "none".to_string(),
+	};
+	match g {
+		G::Typed(kind, k) => raw(&cs_key(kind, k)),
+		G::HeadHeader => match get(&cs_key("head", &[])) {
+			None => "none".into(),
+			Some(t) if t.len() == 80 => raw(&cs_key("header", &t[8..40])),
+			Some(_) => "err".into(),
+		},
+		G::Prev(i) => raw(&cs_key("header", &pool[*i].aux)),
+		G::PrevSkip(i) => height(&cs_key("header", &pool[*i].aux)),
+		G::HeaderSkip(k) => height(&cs_key("header", k)),
+		G::BlockExists(k) => get(&cs_key("block", k)).is_some().to_string(),
+		G::OutPos(k) => match get(&cs_key("outpos-height", k)) {
+			None => "none".into(),
+			Some(v) if v.len() == 16 => format!("some:{}", u64::from_be_bytes(v[0..8].try_into().unwrap()).wrapping_sub(1)),
+			Some(_) => "err".into(),
+		},
+		G::PibdHead => match get(&cs_key("pibd-head", &[])) {
+			Some(v) => format!("some:{}", showval(&v)),
+			None => format!("some:{}", showval(gen_tip)),
+		},
+		G::BlocksIter => {
+			let v: Vec<String> = items(Some(b'b')).iter().map(|(k, _)| hex(k)).collect();
+			format!("[{}]", v.join(","))
+		}
+		G::OutposIter => fmt_items(&items(Some(b'p'))),
+	}
+}
+
+struct CsReader {
+	tx: mpsc::Sender<Option<G>>,
+	rx: mpsc::Receiver<String>,
+	h: Option<thread::JoinHandle<()>>,
+}
+impl CsReader {
+	fn spawn(cs: Arc<ChainStore>, pool: Arc<Vec<ObjRec>>) -> CsReader {
+		let (tx, rrx) = mpsc::channel::<Option<G>>();
+		let (rtx, rx) = mpsc::channel::<String>();
+		let h = thread::spawn(move || {
+			global::set_local_chain_type(ChainTypes::AutomatedTesting);
+			while let Ok(Some(g)) = rrx.recv() {
+				let a = g_outside(&cs, &g, &pool).unwrap_or_else(|| "unsupported".to_string());
+				if rtx.send(a).is_err() {
+					break;
+				}
+			}
+		});
+		CsReader { tx, rx, h: Some(h) }
+	}
+	fn ask(&self, g: &G) -> String {
+		self.tx.send(Some(g.clone())).unwrap();
+		self.rx.recv_timeout(Duration::from_secs(60)).unwrap_or_else(|_| "timeout".to_string())
+	}
+	fn quit(&mut self) {
+		let _ = self.tx.send(None);
+		if let Some(h) = self.h.take() {
+			let _ = h.join();
+		}
+	}
+}
+
+#[derive(Default)]
+struct CsStats {
+	ops: BTreeMap<String, u64>,
+	commits: [u64; 5],
+	drops: [u64; 5],
+	max_depth: usize,
+	readback_same: u64,
+	child_reads_parent: u64,
+	parent_after_child_commit: u64,
+	parent_after_child_drop: u64,
+	outside_main: u64,
+	outside_t1: u64,
+	outside_while_pending: u64,
+	outside_discriminating: u64,
+	repeat_pairs: u64,
+	after_reopen_reads: u64,
+	nontrivial_answers: u64,
+	oracle_fails: u64,
+}
+
+struct Cs {
+	out: Out,
+	rng: Rng,
+	sh: Shadow,
+	cs: Option<Arc<ChainStore>>,
+	raw: Option<Store>,
+	reader: Option<CsReader>,
+	pool: Arc<Vec<ObjRec>>,
+	hdrs: Vec<usize>,
+	blks: Vec<usize>,
+	tips: Vec<usize>,
+	sums: Vec<usize>,
+	spents: Vec<usize>,
+	poss: Vec<usize>,
+	commits_keys: Vec<Vec<u8>>,
+	gen_tip: Vec<u8>,
+	dir: String,
+	st: CsStats,
+	/// getters for the keys written at each open level (innermost last)
+	touched: Vec<Vec<G>>,
+}
+
+impl Cs {
+	fn op(&mut self, name: &str) {
+		*self.st.ops.entry(name.to_string()).or_insert(0) += 1;
+	}
+	fn fail(&mut self, msg: String) {
+		self.st.oracle_fails += 1;
+		self.out.raw(&format!("#ORACLE-FAIL C18 {}", msg));
+	}
+	fn open(&mut self) {
+		let cs = Arc::new(ChainStore::new(&self.dir, None).expect("ChainStore::new"));
+		// a raw handle on the same environment (same database names): full dumps for `kv obs`
+		let raw = Store::new(&self.dir, None, Some("chain"), CS_DBS.to_vec(), None, None).expect("raw Store::new");
+		self.reader = Some(CsReader::spawn(cs.clone(), self.pool.clone()));
+		self.cs = Some(cs);
+		self.raw = Some(raw);
+	}
+	fn close(&mut self) {
+		if let Some(mut r) = self.reader.take() {
+			r.quit();
+		}
+		self.raw = None;
+		self.cs = None;
+	}
+	fn pending_differs(&self, g: &G) -> bool {
+		let view = |k: &K| self.sh.bget(k);
+		let com = |k: &K| self.sh.committed.get(k).cloned();
+		let none = |_: Db| vec![];
+		g_expect(&view, &none, g, &self.pool, &self.gen_tip) != g_expect(&com, &none, g, &self.pool, &self.gen_tip)
+	}
+	/// read through the innermost open batch, check, print
+	fn read_in(&mut self, b: &CBatch<'_>, g: &G, why: &str) {
+		let ans = g_in_batch(b, g, &self.pool);
+		let want = {
+			let view = |k: &K| self.sh.bget(k);
+			let vm = self.sh.view();
+			let items = |db: Db| cs_items(&vm, db);
+			g_expect(&view, &items, g, &self.pool, &self.gen_tip)
+		};
+		if ans != want {
+			self.fail(format!(
+				"ChainStore batch at depth {} ({}): {} answered {} but the batch's own view gives {}",
+				self.sh.stack.len(), why, g_args(g, &self.pool), ans, want
+			));
+		}
+		if ans != "none" && ans != "false" && ans != "[]" {
+			self.st.nontrivial_answers += 1;
+		}
+		self.op(&format!("in:{}", g_kind(g)));
+		self.out.line(&format!("kv cs {}", g_args(g, &self.pool)), &ans);
+	}
+	/// read through the plain ChainStore (no batch) on this thread or on the second one
+	fn read_out(&mut self, g: &G, main: bool, why: &str) -> Option<String> {
+		let ans = if main {
+			g_outside(self.cs.as_ref().unwrap(), g, &self.pool)?
+		} else {
+			let a = self.reader.as_ref().unwrap().ask(g);
+			if a == "unsupported" {
+				return None;
+			}
+			a
+		};
+		let want = {
+			let com = |k: &K| self.sh.committed.get(k).cloned();
+			let none = |_: Db| vec![];
+			g_expect(&com, &none, g, &self.pool, &self.gen_tip)
+		};
+		let who = if main { "main" } else { "t1" };
+		if main {
+			self.st.outside_main += 1;
+		} else {
+			self.st.outside_t1 += 1;
+		}
+		if !self.sh.stack.is_empty() {
+			self.st.outside_while_pending += 1;
+			if self.pending_differs(g) {
+				self.st.outside_discriminating += 1;
+			}
+		}
+		if ans != want {
+			let view = |k: &K| self.sh.bget(k);
+			let none = |_: Db| vec![];
+			let inview = g_expect(&view, &none, g, &self.pool, &self.gen_tip);
+			self.fail(format!(
+				"plain ChainStore read on thread {} ({}; {} batch level(s) open): {} answered {} but the committed state gives {} (the open batch's view: {})",
+				who, why, self.sh.stack.len(), g_args(g, &self.pool), ans, want, inview
+			));
+		}
+		if ans != "none" && ans != "false" {
+			self.st.nontrivial_answers += 1;
+		}
+		self.op(&format!("out-{}", who));
+		self.out.line(&format!("kv cs-out {} {}", who, g_args(g, &self.pool)), &ans);
+		Some(ans)
+	}
+	fn read_out_both(&mut self, g: &G, why: &str) {
+		self.read_out(g, true, why);
+		self.read_out(g, false, why);
+	}
+	/// same read twice on the same thread: the answers must not differ (caches)
+	fn read_out_repeat(&mut self, g: &G, main: bool, why: &str) {
+		let a = self.read_out(g, main, why);
+		let b = self.read_out(g, main, why);
+		if a.is_some() {
+			self.st.repeat_pairs += 1;
+			if a != b {
+				self.fail(format!(
+					"repeating the plain ChainStore read {} on thread {} ({}) changed the answer from {:?} to {:?} with no write in between",
+					g_args(g, &self.pool), if main { "main" } else { "t1" }, why, a, b
+				));
+			}
+		}
+	}
+
+	fn rand_hash(&mut self) -> Vec<u8> {
+		if self.rng.chance(1, 12) {
+			return self.rng.bytes(32);
+		}
+		let i = if self.rng.chance(1, 2) { *self.rng.pick(&self.hdrs) } else { *self.rng.pick(&self.blks) };
+		self.pool[i].key.clone()
+	}
+	fn rand_getter(&mut self) -> G {
+		// mostly aim at what is pending in the open batches
+		let pend: Vec<G> = self.touched.iter().flatten().cloned().collect();
+		if !pend.is_empty() && self.rng.chance(1, 2) {
+			return self.rng.pick(&pend).clone();
+		}
+		match self.rng.below(16) {
+			0 => G::Typed("head", vec![]),
+			1 => G::Typed("tail", vec![]),
+			2 => G::Typed("header-head", vec![]),
+			3 | 4 => G::Typed("header", self.rand_hash()),
+			5 | 6 => G::Typed("block", self.rand_hash()),
+			7 => G::Typed("sums", self.rand_hash()),
+			8 => G::Typed("spent", self.rand_hash()),
+			9 => G::Typed("outpos-height", self.rng.pick(&self.commits_keys.clone()).clone()),
+			10 => G::HeadHeader,
+			11 => {
+				if self.rng.chance(1, 2) {
+					G::Prev(*self.rng.pick(&self.hdrs))
+				} else {
+					G::PrevSkip(*self.rng.pick(&self.hdrs))
+				}
+			}
+			12 => G::HeaderSkip(self.rand_hash()),
+			13 => G::BlockExists(self.rand_hash()),
+			14 => G::OutPos(self.rng.pick(&self.commits_keys.clone()).clone()),
+			_ => {
+				if self.rng.chance(1, 2) {
+					G::BlocksIter
+				} else {
+					G::OutposIter
+				}
+			}
+		}
+	}
+
+	/// one typed write on the innermost batch + read-back through it + plain reads outside
+	fn write_op(&mut self, b: &mut CBatch<'_>) {
+		let r = self.rng.below(100);
+		// (line args, result, shadow writes, getters that address what was written)
+		let (args, res, writes, gs): (String, Result<(), Error>, Vec<(K, Option<Vec<u8>>)>, Vec<G>);
+		if r < 24 {
+			let i = *self.rng.pick(&self.hdrs);
+			let o = self.pool[i].clone();
+			res = b.save_block_header(hdr_of(&self.pool, i));
+			args = format!("save header - {}", o.name);
+			writes = vec![(cs_key("header", &o.key), Some(o.bytes.clone()))];
+			let mut v = vec![G::Typed("header", o.key.clone()), G::HeaderSkip(o.key.clone())];
+			// headers whose prev_hash is this one: get_previous_header finds it now
+			if let Some(c) = self.hdrs.iter().find(|c| self.pool[**c].aux == o.key) {
+				v.push(if self.rng.chance(1, 2) { G::Prev(*c) } else { G::PrevSkip(*c) });
+			}
+			gs = v;
+		} else if r < 38 {
+			let i = *self.rng.pick(&self.blks);
+			let o = self.pool[i].clone();
+			res = match &o.obj {
+				Obj::Blk(blk) => b.save_block(blk),
+				_ => unreachable!(),
+			};
+			args = format!("save block - {}", o.name);
+			writes = vec![(cs_key("block", &o.key), Some(o.bytes.clone()))];
+			gs = vec![G::Typed("block", o.key.clone()), G::BlockExists(o.key.clone())];
+		} else if r < 62 {
+			let i = *self.rng.pick(&self.tips);
+			let o = self.pool[i].clone();
+			let t = match &o.obj {
+				Obj::Tip(t) => t.clone(),
+				_ => unreachable!(),
+			};
+			let kind = *self.rng.pick(&["head", "head", "head", "header-head", "header-head", "tail", "pibd-head"]);
+			res = match kind {
+				"head" => b.save_body_head(&t),
+				"header-head" => b.save_header_head(&t),
+				"tail" => b.save_body_tail(&t),
+				_ => b.save_pibd_head(&t),
+			};
+			args = format!("save {} - {}", kind, o.name);
+			writes = vec![(cs_key(kind, &[]), Some(o.bytes.clone()))];
+			gs = match kind {
+				"head" => vec![G::Typed("head", vec![]), G::HeadHeader],
+				"pibd-head" => vec![G::PibdHead],
+				_ => vec![G::Typed(kind, vec![])],
+			};
+		} else if r < 70 {
+			let i = *self.rng.pick(&self.sums);
+			let o = self.pool[i].clone();
+			let h = self.rand_hash();
+			res = match &o.obj {
+				Obj::Sums(s) => b.save_block_sums(&Hash::from_vec(&h), s.clone()),
+				_ => unreachable!(),
+			};
+			args = format!("save sums {} {}", hex(&h), o.name);
+			writes = vec![(cs_key("sums", &h), Some(o.bytes.clone()))];
+			gs = vec![G::Typed("sums", h)];
+		} else if r < 76 {
+			let i = *self.rng.pick(&self.spents);
+			let o = self.pool[i].clone();
+			let h = self.rand_hash();
+			res = match &o.obj {
+				Obj::Spent(s) => b.save_spent_index(&Hash::from_vec(&h), s),
+				_ => unreachable!(),
+			};
+			args = format!("save spent {} {}", hex(&h), o.name);
+			writes = vec![(cs_key("spent", &h), Some(o.bytes.clone()))];
+			gs = vec![G::Typed("spent", h)];
+		} else if r < 84 {
+			let i = *self.rng.pick(&self.poss);
+			let o = self.pool[i].clone();
+			let c = self.rng.pick(&self.commits_keys.clone()).clone();
+			res = match &o.obj {
+				Obj::Pos(p) => b.save_output_pos_height(&Commitment::from_vec(c.clone()), *p),
+				_ => unreachable!(),
+			};
+			args = format!("save outpos-height {} {}", hex(&c), o.name);
+			writes = vec![(cs_key("outpos-height", &c), Some(o.bytes.clone()))];
+			gs = vec![G::Typed("outpos-height", c.clone()), G::OutPos(c)];
+		} else if r < 92 {
+			let h = self.rand_hash();
+			res = b.delete_block(&Hash::from_vec(&h));
+			args = format!("delete-block {}", hex(&h));
+			writes = vec![(cs_key("block", &h), None), (cs_key("sums", &h), None), (cs_key("spent", &h), None)];
+			gs = vec![G::Typed("block", h.clone()), G::BlockExists(h.clone()), G::Typed("sums", h.clone()), G::Typed("spent", h)];
+		} else if r < 96 {
+			let c = self.rng.pick(&self.commits_keys.clone()).clone();
+			res = b.delete_output_pos_height(&Commitment::from_vec(c.clone()));
+			args = format!("delete-outpos {}", hex(&c));
+			writes = vec![(cs_key("outpos-height", &c), None)];
+			gs = vec![G::Typed("outpos-height", c.clone()), G::OutPos(c)];
+		} else {
+			// raw delete of a header or of the head key
+			if self.rng.chance(1, 2) {
+				let h = self.rand_hash();
+				res = b.delete(Some(b'h'), &h);
+				args = format!("delete-raw {} {}", b'h', hex(&h));
+				writes = vec![(cs_key("header", &h), None)];
+				gs = vec![G::Typed("header", h)];
+			} else {
+				res = b.delete(None, &[b'H']);
+				args = format!("delete-raw def {}", hex(&[b'H']));
+				writes = vec![(cs_key("head", &[]), None)];
+				gs = vec![G::Typed("head", vec![]), G::HeadHeader];
+			}
+		}
+		let ans = fmt_unit(res);
+		if ans != "ok" {
+			self.fail(format!("typed write {} failed at depth {}", args, self.sh.stack.len()));
+		} else {
+			for (k, v) in writes {
+				self.sh.write(k, v);
+			}
+		}
+		let mut toks = args.split(' ');
+		let t0 = toks.next().unwrap_or("");
+		let wname = if t0 == "save" { format!("save-{}", toks.next().unwrap_or("")) } else { t0.to_string() };
+		self.op(&format!("w:{}", wname));
+		self.out.line(&format!("kv cs {}", args), &ans);
+		// read it back through the same batch (sometimes twice), then through the plain store
+		for g in gs.iter() {
+			if matches!(g, G::PibdHead) {
+				continue;
+			}
+			self.read_in(b, g, "read-back of its own write");
+			self.st.readback_same += 1;
+			if self.rng.chance(1, 5) {
+				self.read_in(b, g, "repeated read-back");
+			}
+		}
+		for g in gs.iter() {
+			self.read_out_both(g, "right after a write of the open batch");
+		}
+		self.touched.last_mut().unwrap().extend(gs);
+	}
+
+	fn level(&mut self, b: &mut CBatch<'_>, depth: usize, max_depth: usize) {
+		self.st.max_depth = self.st.max_depth.max(depth);
+		let n = self.rng.range(1, if depth == 1 { 7 } else { 4 });
+		for _ in 0..n {
+			let r = self.rng.below(100);
+			if r < 45 {
+				self.write_op(b);
+			} else if r < 68 {
+				let g = self.rand_getter();
+				if !matches!(g, G::PibdHead) {
+					self.read_in(b, &g, "random read");
+				}
+			} else if r < 78 {
+				let g = self.rand_getter();
+				let main = self.rng.chance(1, 2);
+				self.read_out(&g, main, "random read while the batch is open");
+			} else if depth < max_depth {
+				let parent_writes: Vec<G> = self.touched.iter().flatten().cloned().collect();
+				let ended: Option<(bool, Vec<G>)> = match b.child() {
+					Ok(mut c) => {
+						self.sh.stack.push(vec![]);
+						self.touched.push(vec![]);
+						self.op("child");
+						self.out.line("kv child", "ok");
+						// the fresh child sees what its ancestors wrote
+						for _ in 0..self.rng.range(1, 3) {
+							if parent_writes.is_empty() {
+								break;
+							}
+							let g = self.rng.pick(&parent_writes).clone();
+							if matches!(g, G::PibdHead) {
+								continue;
+							}
+							self.read_in(&c, &g, "child reading a write of an enclosing batch");
+							self.st.child_reads_parent += 1;
+						}
+						self.level(&mut c, depth + 1, max_depth);
+						let commit = self.rng.chance(3, 5);
+						let child_writes = self.touched.pop().unwrap();
+						if commit {
+							let ans = fmt_unit(c.commit());
+							if ans != "ok" {
+								self.fail(format!("child commit at depth {} failed", depth + 1));
+							}
+							self.sh.commit();
+							self.st.commits[depth + 1] += 1;
+							self.out.line("kv commit", &ans);
+						} else {
+							drop(c);
+							self.sh.stack.pop();
+							self.st.drops[depth + 1] += 1;
+							self.out.line("kv drop", "ok");
+						}
+						Some((commit, child_writes))
+					}
+					Err(_) => {
+						self.fail(format!("ChainStore Batch::child at depth {} failed", depth));
+						self.out.line("kv child", "err");
+						None
+					}
+				};
+				if let Some((commit, child_writes)) = ended {
+					// the parent after the child ended: committed -> the child's values, dropped -> as before
+					let mut seen = 0;
+					for g in child_writes.iter() {
+						if matches!(g, G::PibdHead) || seen >= 6 {
+							continue;
+						}
+						seen += 1;
+						self.read_in(b, g, if commit { "parent after its child committed" } else { "parent after its child was dropped" });
+						if commit {
+							self.st.parent_after_child_commit += 1;
+						} else {
+							self.st.parent_after_child_drop += 1;
+						}
+					}
+					for g in child_writes.iter().take(3) {
+						let main = self.rng.chance(1, 2);
+						self.read_out(g, main, if commit { "after a child commit (enclosing batch still open)" } else { "after a child drop" });
+					}
+					if commit {
+						self.touched.last_mut().unwrap().extend(child_writes);
+					}
+				}
+			} else {
+				self.write_op(b);
+			}
+		}
+	}
+
+	fn obs(&mut self) {
+		let mut items = vec![];
+		let mut bad = false;
+		{
+			let raw = self.raw.as_ref().unwrap();
+			let mut dbs: Vec<Db> = vec![None];
+			let mut named: Vec<u8> = CS_DBS.to_vec();
+			named.sort();
+			dbs.extend(named.iter().map(|p| Some(*p)));
+			for db in dbs {
+				match collect_iter(raw.iter(db, kvpair)) {
+					Ok(v) => {
+						for (k, val) in v {
+							items.push((db_id(db), k, val));
+						}
+					}
+					Err(_) => bad = true,
+				}
+			}
+		}
+		let ans = if bad { "err".to_string() } else { dump_fmt(&items) };
+		let want = self.sh.dump();
+		if ans != want {
+			self.fail(format!("committed state of the chain store is {} but the committed batches give {}", ans, want));
+		}
+		self.op("obs");
+		self.out.line("kv obs", &ans);
+	}
+
+	fn top_batch(&mut self, i: usize) {
+		let commit;
+		{
+			let cs = self.cs.as_ref().unwrap().clone();
+			let mut b = match cs.batch() {
+				Ok(b) => b,
+				Err(_) => {
+					self.fail("ChainStore::batch failed".to_string());
+					self.out.line("kv begin", "err");
+					return;
+				}
+			};
+			self.sh.stack.push(vec![]);
+			self.touched.push(vec![]);
+			self.op("begin");
+			self.out.line("kv begin", "ok");
+			self.level(&mut b, 1, 3);
+			commit = self.rng.chance(13, 20);
+			if commit {
+				let ans = fmt_unit(b.commit());
+				if ans != "ok" {
+					self.fail("outermost ChainStore commit failed".to_string());
+				}
+				self.sh.commit();
+				self.st.commits[1] += 1;
+				self.out.line("kv commit", &ans);
+			} else {
+				drop(b);
+				self.sh.stack.pop();
+				self.st.drops[1] += 1;
+				self.out.line("kv drop", "ok");
+			}
+		}
+		// everything the batch touched (also in dropped children: not in `touched` any more, but
+		// the heads and head-header cover the hot keys), twice from both threads
+		let mut ts = self.touched.pop().unwrap();
+		ts.push(G::Typed("head", vec![]));
+		ts.push(G::HeadHeader);
+		ts.push(G::Typed("header-head", vec![]));
+		ts.push(G::PibdHead);
+		let mut seen = std::collections::BTreeSet::new();
+		let why = if commit { "after the outermost commit" } else { "after the outermost batch was dropped" };
+		for g in ts.iter() {
+			if !seen.insert(g_args(g, &self.pool)) || seen.len() > 14 {
+				continue;
+			}
+			self.read_out_repeat(g, true, why);
+			self.read_out_repeat(g, false, why);
+		}
+		if i % 3 == 2 {
+			self.obs();
+		}
+		if i % 40 == 39 {
+			self.close();
+			self.open();
+			self.op("reopen");
+			self.out.line("kv reopen", "ok");
+			self.obs();
+			for g in ts.iter().take(12) {
+				self.read_out_both(g, "after reopen");
+				self.st.after_reopen_reads += 2;
+			}
+		}
+	}
+}
+
+fn cs_items(m: &BTreeMap<K, Vec<u8>>, db: Db) -> Vec<(Vec<u8>, Vec<u8>)> {
+	let id = db_id(db);
+	m.range((id, vec![])..(id + 1, vec![]))
+		.map(|((_, k), v)| (k.clone(), v.clone()))
+		.collect()
+}
+
+fn mode_cstore(work: &str, seed: u64, thorough: bool) {
+	let dir = format!("{}/cstore", work);
+	let mut rng = Rng::new(seed ^ 0xC5);
+	// ---- real objects: a small fork tree with transactions, built on a real chain
+	let mut kit = Kit::new(&format!("{}/kit", dir));
+	let mut tip = 0usize;
+	let mut ids = vec![0usize];
+	for h in 1..=6u64 {
+		let specs = if h == 4 {
+			let v = kit.outs[0].value;
+			vec![TxSpec { inputs: vec![0], outputs: vec![(v / 2, None), (v - v / 2 - 2, None)], kernel: KSpec::Plain(2) }]
+		} else {
+			vec![]
+		};
+		match kit.new_block(tip, rng.range(1, 4), &specs).or_else(|_| kit.new_block(tip, 2, &[])) {
+			Ok(id) => {
+				tip = id;
+				ids.push(id);
+			}
+			Err(e) => panic!("cannot build block: {}", e),
+		}
+	}
+	for back in [2usize, 3] {
+		let mut t = ids[ids.len() - 1 - back];
+		for _ in 0..2 {
+			if let Ok(id) = kit.new_block(t, rng.range(1, 5), &[]) {
+				t = id;
+				ids.push(id);
+			}
+		}
+	}
+	let mut pool: Vec<ObjRec> = vec![];
+	let (mut hdrs, mut blks, mut tips, mut sums, mut spents, mut poss) = (vec![], vec![], vec![], vec![], vec![], vec![]);
+	let mut add_hdr = |pool: &mut Vec<ObjRec>, h: BlockHeader| {
+		let n = pool.len();
+		pool.push(ObjRec {
+			name: format!("h{}", n),
+			key: h.hash().to_vec(),
+			aux: h.prev_hash.to_vec(),
+			bytes: ser::ser_vec(&h, DBV).unwrap(),
+			obj: Obj::Hdr(h.clone()),
+		});
+		hdrs.push(n);
+		let t = Tip::from_header(&h);
+		let n = pool.len();
+		pool.push(ObjRec {
+			name: format!("t{}", n),
+			key: vec![],
+			aux: vec![],
+			bytes: ser::ser_vec(&t, DBV).unwrap(),
+			obj: Obj::Tip(t),
+		});
+		tips.push(n);
+	};
+	for id in ids.iter() {
+		let b = kit.blks[*id].block.clone();
+		add_hdr(&mut pool, b.header.clone());
+		// a variant with another nonce: different hash, same parent (never a stored block)
+		if rng.chance(1, 2) {
+			let mut h2 = b.header.clone();
+			h2.pow.nonce = h2.pow.nonce.wrapping_add(rng.range(1, 1000));
+			add_hdr(&mut pool, h2);
+		}
+		let n = pool.len();
+		pool.push(ObjRec {
+			name: format!("b{}", n),
+			key: b.hash().to_vec(),
+			aux: vec![],
+			bytes: ser::ser_vec(&b, DBV).unwrap(),
+			obj: Obj::Blk(b),
+		});
+		blks.push(n);
+	}
+	let commits: Vec<Commitment> = kit.outs.iter().map(|o| o.commit).collect();
+	let commits_keys: Vec<Vec<u8>> = commits.iter().map(|c| c.as_ref().to_vec()).collect();
+	for i in 0..5usize {
+		let s = BlockSums {
+			utxo_sum: commits[i % commits.len()],
+			kernel_sum: commits[(i * 3 + 1) % commits.len()],
+		};
+		let n = pool.len();
+		pool.push(ObjRec { name: format!("m{}", n), key: vec![], aux: vec![], bytes: ser::ser_vec(&s, DBV).unwrap(), obj: Obj::Sums(s) });
+		sums.push(n);
+		let sp: Vec<CommitPos> = (0..i).map(|j| CommitPos { pos: 1 + rng.below(1000), height: j as u64 }).collect();
+		let n = pool.len();
+		pool.push(ObjRec { name: format!("s{}", n), key: vec![], aux: vec![], bytes: ser::ser_vec(&sp, DBV).unwrap(), obj: Obj::Spent(sp) });
+		spents.push(n);
+		let p = CommitPos { pos: 1 + rng.below(5000), height: rng.below(50) };
+		let n = pool.len();
+		pool.push(ObjRec { name: format!("p{}", n), key: vec![], aux: vec![], bytes: ser::ser_vec(&p, DBV).unwrap(), obj: Obj::Pos(p) });
+		poss.push(n);
+	}
+	drop(kit);
+	let gen_tip = ser::ser_vec(&Tip::from_header(&global::get_genesis_block().header), DBV).unwrap();
+	let mut out = Out::stdout();
+	out.line(&format!("kv cs-new {}", hex(&gen_tip)), "ok");
+	for o in pool.iter() {
+		out.line(&format!("kv cs-obj {} {} {} {}", o.name, hex(&o.key), hex(&o.aux), hex(&o.bytes)), "ok");
+	}
+	let sizes: Vec<String> = [("headers", &hdrs), ("blocks", &blks), ("tips", &tips), ("sums", &sums), ("spent", &spents), ("outpos", &poss)]
+		.iter()
+		.map(|(n, v)| {
+			let lens: Vec<usize> = v.iter().map(|i| pool[*i].bytes.len()).collect();
+			format!("{}={} ({}..{} B)", n, v.len(), lens.iter().min().unwrap(), lens.iter().max().unwrap())
+		})
+		.collect();
+	out.raw(&format!("#STAT cstore object pool: {}", sizes.join(", ")));
+	let mut cx = Cs {
+		out,
+		rng,
+		sh: Shadow::default(),
+		cs: None,
+		raw: None,
+		reader: None,
+		pool: Arc::new(pool),
+		hdrs,
+		blks,
+		tips,
+		sums,
+		spents,
+		poss,
+		commits_keys,
+		gen_tip,
+		dir: format!("{}/db", dir),
+		st: CsStats::default(),
+		touched: vec![],
+	};
+	cx.open();
+	let n = if thorough { 6000 } else { 1200 };
+	for i in 0..n {
+		cx.top_batch(i);
+	}
+	cx.obs();
+	let mut by: BTreeMap<String, u64> = BTreeMap::new();
+	for (k, v) in cx.st.ops.iter() {
+		*by.entry(k.clone()).or_insert(0) += v;
+	}
+	let ops: Vec<String> = by.iter().map(|(k, v)| format!("{}={}", k, v)).collect();
+	cx.out.raw(&format!("#STAT cstore ops: {}", ops.join(" ")));
+	cx.out.raw(&format!(
+		"#STAT cstore top-level batches {}; max nesting {}; commits per level 1..3 = {}/{}/{}; drops per level 1..3 = {}/{}/{}; read-backs through the writing batch {}; reads by a fresh child of an enclosing batch's writes {}; parent reads after child commit {} / after child drop {}; plain ChainStore reads on the writer thread {} / on the second thread {} ({} while a batch was open, {} of them on a getter whose answer inside the batch differs from the committed one); repeated-read pairs {}; reads after reopen {}; non-trivial answers {}; oracle failures {}",
+		n, cx.st.max_depth, cx.st.commits[1], cx.st.commits[2], cx.st.commits[3], cx.st.drops[1], cx.st.drops[2], cx.st.drops[3],
+		cx.st.readback_same, cx.st.child_reads_parent, cx.st.parent_after_child_commit, cx.st.parent_after_child_drop,
+		cx.st.outside_main, cx.st.outside_t1, cx.st.outside_while_pending, cx.st.outside_discriminating,
+		cx.st.repeat_pairs, cx.st.after_reopen_reads, cx.st.nontrivial_answers, cx.st.oracle_fails
+	));
+	cx.close();
+	cx.out.flush();
+}
+
+// ---------------------------------------------------------------------------------------------
+// mode frag (second part of the resize family): "no operation fails for lack of space" with
+// FRAGMENTED free space.  600 values of 3000 bytes (one overflow page each), every other one
+// deleted and a share of the rest overwritten by small values (the freed pages are scattered
+// single pages), then growth by values of 20 000 bytes (five contiguous overflow pages: they
+// cannot use the scattered pages and move the last page of the map), one per batch, some
+// batches also deleting older big values, every 6th Store::batch() issued while the other thread
+// holds an iterator.  Map resizes must come in time: no put / commit may fail.  Per committed
+// batch: `kv needs-resize` (the decision, recomputed by the model from the meta page) and
+// `kv space` (the pages the batch can allocate at most fit behind the last page => it must have
+// succeeded, whatever the freelist; Props/C18 `tail_fit_never_fails`).
+// ---------------------------------------------------------------------------------------------
+#[derive(Default)]
+struct FragStats {
+	batches: u64,
+	failed_ops: u64,
+	held: u64,
+	waited: u64,
+	resized_while_held: u64,
+	space_guaranteed: u64,
+	space_not_guaranteed: u64,
+	max_need: u64,
+	min_tail: u64,
+	sizes: Vec<u64>,
+	last_pg_path: Vec<u64>,
+}
+
+/// pages a batch of these writes can allocate at most: overflow pages of the values plus
+/// copy-on-write of the tree paths, the main db and the freelist db
+fn frag_need(ws: &[(Db, Vec<u8>, Option<Vec<u8>>)]) -> u64 {
+	let mut n = 8u64;
+	for (_, _, v) in ws {
+		n += 1;
+		if let Some(v) = v {
+			if v.len() > 1900 {
+				n += (15 + v.len() as u64) / 4096 + 1;
+			}
+		}
+	}
+	n
+}
+
+fn frag_batch(cx: &mut Cx, dir: &str, fs: &mut FragStats, ws: Vec<(Db, Vec<u8>, Option<Vec<u8>>)>, hold: bool, what: &str) {
+	fs.batches += 1;
+	if hold {
+		let a = cx.reader.ask(Req::HoldFor(Some(b'B'), 130));
+		if a != "ok" {
+			cx.oracle_fail(format!("reader could not open an iterator before a batch ({}): {}", what, a));
+		}
+		fs.held += 1;
+	}
+	let pre = meta_info(dir);
+	let t0 = Instant::now();
+	let store = cx.store();
+	let mut b = match store.batch() {
+		Ok(b) => b,
+		Err(e) => {
+			fs.failed_ops += 1;
+			cx.oracle_fail(format!("Store::batch failed ({}): {:?}", what, e));
+			cx.line("kv begin", "err");
+			return;
+		}
+	};
+	let el = t0.elapsed().as_millis();
+	if el >= 90 {
+		fs.waited += 1;
+	}
+	cx.sh.stack.push(vec![]);
+	cx.st.op("begin");
+	cx.line("kv begin", "ok");
+	let mut all_ok = true;
+	for (db, key, v) in ws.iter() {
+		let k: K = (db_id(*db), key.clone());
+		match v {
+			Some(v) => {
+				let ans = fmt_unit(b.put(*db, key, v));
+				if ans != "ok" {
+					all_ok = false;
+					fs.failed_ops += 1;
+					cx.oracle_fail(format!(
+						"put of {} bytes failed for lack of space? ({}; meta before the batch {:?}, now {:?})",
+						v.len(), what, pre, meta_info(dir)
+					));
+				} else {
+					cx.sh.write(k, Some(v.clone()));
+				}
+				cx.st.op("put");
+				cx.line(&format!("kv put {} {} {}", db_tok(*db), hex(key), valtok(v)), &ans);
+			}
+			None => {
+				let ans = fmt_unit(b.delete(*db, key));
+				if ans != "ok" {
+					all_ok = false;
+					fs.failed_ops += 1;
+					cx.oracle_fail(format!("delete failed ({})", what));
+				} else {
+					cx.sh.write(k, None);
+				}
+				cx.st.op("del");
+				cx.line(&format!("kv del {} {}", db_tok(*db), hex(key)), &ans);
+			}
+		}
+	}
+	let ans = fmt_unit(b.commit());
+	if ans != "ok" {
+		all_ok = false;
+		fs.failed_ops += 1;
+		cx.oracle_fail(format!("commit failed ({}; meta before the batch {:?})", what, pre));
+		cx.sh.stack.pop();
+	} else {
+		cx.sh.commit();
+	}
+	cx.st.commits[1] += 1;
+	cx.line("kv commit", &ans);
+	let post = meta_info(dir);
+	if let (Some(pre), Some(post)) = (pre, post) {
+		if post.2 == pre.2 + 1 {
+			if hold && post.0 != pre.0 {
+				fs.resized_while_held += 1;
+				if el < 120 {
+					cx.oracle_fail(format!(
+						"{}: the map was resized ({} -> {}) inside a Store::batch() call that took only {} ms while another thread held an iterator for 130 ms",
+						what, pre.0, post.0, el
+					));
+				}
+			}
+			cx.st.op("needs-resize");
+			cx.line(
+				&format!("kv needs-resize {} {} {}", pre.0, pre.1 * 4096, 1_048_576),
+				&format!("{} {}", post.0 != pre.0, post.0),
+			);
+			let need = frag_need(&ws);
+			fs.max_need = fs.max_need.max(need);
+			let tail = (post.0 / 4096).saturating_sub(pre.1 + 1);
+			fs.min_tail = if fs.min_tail == 0 { tail } else { fs.min_tail.min(tail) };
+			if (pre.1 + 1 + need) * 4096 <= post.0 {
+				fs.space_guaranteed += 1;
+			} else {
+				fs.space_not_guaranteed += 1;
+			}
+			cx.st.op("space");
+			cx.line(
+				&format!("kv space {} {} {} {}", pre.0, pre.1, need, 1_048_576),
+				if all_ok { "ok" } else { "fail" },
+			);
+		}
+		if fs.sizes.last() != Some(&post.0) {
+			fs.sizes.push(post.0);
+			cx.obs();
+		}
+		fs.last_pg_path.push(post.1);
+	}
+}
+
+fn mode_frag(work: &str, seed: u64, thorough: bool) {
+	let dir = format!("{}/frag", work);
+	let mut cx = Cx::new(&dir, seed ^ 0xF4A6);
+	let mut fs = FragStats::default();
+	if let Some(m) = meta_info(&dir) {
+		fs.sizes.push(m.0);
+	}
+	let nsmall = 600usize;
+	let skey = |i: usize| format!("s{:05}", i).into_bytes();
+	// ---- F1: 600 values of 3000 bytes, five per batch, over two databases
+	let mut i = 0;
+	while i < nsmall {
+		let mut ws = vec![];
+		for j in i..(i + 5).min(nsmall) {
+			let db = if j % 3 == 0 { Some(b'B') } else { Some(b'A') };
+			ws.push((db, skey(j), Some(vec![(j % 251) as u8; 3000])));
+		}
+		i += 5;
+		frag_batch(&mut cx, &dir, &mut fs, ws, false, "F1 fill with 3000-byte values");
+	}
+	cx.obs();
+	let after_fill = meta_info(&dir);
+	// ---- F2: delete every other one, overwrite every 5th of the rest by a small value
+	let mut ws = vec![];
+	let mut deleted = 0u64;
+	let mut shrunk = 0u64;
+	for j in 0..nsmall {
+		let db = if j % 3 == 0 { Some(b'B') } else { Some(b'A') };
+		if j % 2 == 1 {
+			ws.push((db, skey(j), None));
+			deleted += 1;
+		} else if j % 10 == 0 {
+			ws.push((db, skey(j), Some(vec![0xee; 40])));
+			shrunk += 1;
+		}
+		if ws.len() >= 10 {
+			frag_batch(&mut cx, &dir, &mut fs, std::mem::take(&mut ws), false, "F2 delete every other value");
+		}
+	}
+	if !ws.is_empty() {
+		frag_batch(&mut cx, &dir, &mut fs, ws, false, "F2 delete every other value");
+	}
+	cx.obs();
+	let after_del = meta_info(&dir);
+	// ---- F3: keep growing with values spanning several pages, one per batch
+	let grow = if thorough { 700 } else { 190 };
+	let mut big_alive: Vec<(Db, Vec<u8>)> = vec![];
+	let mut big_deleted = 0u64;
+	for g in 0..grow {
+		let db = *cx.rng.pick(&all_dbs());
+		let key = format!("g{:05}", g).into_bytes();
+		let len = if g % 7 == 3 { 33_000 } else { 20_000 };
+		let mut ws = vec![(db, key.clone(), Some(vec![(g % 253) as u8; len]))];
+		if g % 9 == 8 && big_alive.len() > 4 {
+			// more holes: two older big values go away (their runs of 5 pages become reusable later)
+			for _ in 0..2 {
+				let i = cx.rng.below(big_alive.len() as u64) as usize;
+				let (d, k) = big_alive.swap_remove(i);
+				ws.push((d, k, None));
+				big_deleted += 1;
+			}
+		}
+		big_alive.push((db, key));
+		// an iterator open on the other thread when Store::batch() is called: every 6th batch, and
+		// mostly when the resize threshold (90 % by last page) is about to be crossed, so that the
+		// resize itself has to wait for the iterator
+		let near = meta_info(&dir).map(|m| m.1 * 4096 * 100 > m.0 * 88).unwrap_or(false);
+		let hold = g % 6 == 5 || (near && cx.rng.chance(2, 3));
+		frag_batch(&mut cx, &dir, &mut fs, ws, hold, &format!("F3 growth batch {}", g));
+		if g % 25 == 24 {
+			cx.outside_read();
+		}
+		if g == grow / 2 {
+			cx.reopen();
+		}
+	}
+	cx.obs();
+	if fs.sizes.len() < 3 {
+		cx.out.raw(&format!("#STAT frag WARNING only {} resizes observed", fs.sizes.len().saturating_sub(1)));
+	}
+	cx.out.raw(&format!(
+		"#STAT frag fill: {} values of 3000 B (last page after fill {:?}); {} deleted (every other one), {} overwritten by 40-byte values (last page after that {:?}: freed pages stay inside); growth: {} batches of one 20 000 / 33 000-byte value ({} older big values deleted on the way); batches {}; failed ops {}; map sizes {:?}; batch() calls with an iterator open on the other thread {} ({} waited >= 90 ms, {} resizes observed inside such a call, each checked to have waited)",
+		nsmall, after_fill.map(|m| m.1), deleted, shrunk, after_del.map(|m| m.1), grow, big_deleted, fs.batches, fs.failed_ops, fs.sizes, fs.held, fs.waited, fs.resized_while_held
+	));
+	let lp = &fs.last_pg_path;
+	out_of_order_note(&mut cx, lp);
+	cx.out.raw(&format!(
+		"#STAT frag space lines: batch volume bound max {} pages; smallest tail (pages behind the last page when the batch began, after the resize check) {}; batches whose success the model guarantees {} / not guaranteed {}",
+		fs.max_need, fs.min_tail, fs.space_guaranteed, fs.space_not_guaranteed
+	));
+	cx.print_stats("frag");
+	cx.finish();
+}
+
+/// distribution of the last-page movement per batch (how often the tail really had to be used)
+fn out_of_order_note(cx: &mut Cx, lp: &[u64]) {
+	let mut grew = 0u64;
+	let mut same = 0u64;
+	let mut maxstep = 0u64;
+	for w in lp.windows(2) {
+		if w[1] > w[0] {
+			grew += 1;
+			maxstep = maxstep.max(w[1] - w[0]);
+		} else {
+			same += 1;
+		}
+	}
+	cx.out.raw(&format!(
+		"#STAT frag last page moved forward in {} batches (max step {} pages), stayed (freed pages reused) in {}; final last page {:?}",
+		grew, maxstep, same, lp.last()
+	));
+}
+
 fn main() {
 	quiet_panics();
 	let args: Vec<String> = std::env::args().collect();
@@ -2041,6 +3274,8 @@ fn main() {
 		"pages" => mode_pages(&work, seed, thorough),
 		"resize" => mode_resize(&work, seed, thorough),
 		"crash" => mode_crash(&work, seed, thorough),
+		"cstore" => mode_cstore(&work, seed, thorough),
+		"frag" => mode_frag(&work, seed, thorough),
 		_ => {
 			eprintln!("unknown mode {}", mode);
 			std::process::exit(2);
